@@ -219,7 +219,7 @@ def make_scenario(spec, seed, idx):
 
 def build_fs(scen):
     files = progs.tree_files_bytes(scen['tree'])
-    fs = SimFS(files, scen['dirs'], cwd=scen['cwd'], faults=copy.deepcopy(scen.get('fs_faults') or []))
+    fs = asmsim.make_fs(files, scen['dirs'], cwd=scen['cwd'], faults=copy.deepcopy(scen.get('fs_faults') or []))
     if scen['opts'].get('defs'):
         asmsim.add_definitions(fs)
     for key, content in (scen.get('pre') or {}).items():
@@ -249,6 +249,7 @@ def parse_labels_file(text):
     return out, len(lines)
 
 
+@asmsim.with_fallback
 def run_scenario(scen, keep_events=False):
     res = core.Result()
     log = core.EventLog(keep=600 if keep_events else 0)
@@ -323,7 +324,7 @@ def run_scenario(scen, keep_events=False):
             res.nontrivial = True
     # exit status must agree with what the assembler says about the program
     if not failed:
-        ref_fs = SimFS(before, scen['dirs'], cwd=scen['cwd'])
+        ref_fs = asmsim.make_fs(before, scen['dirs'], cwd=scen['cwd'])
         inc = list(opts['inc']) + ([asmsim.DEFINITIONS_DIR] if opts['defs'] else [])
         ref = asmsim.run_api(ref_fs, {'target': scen['input'], 'compress': opts['compress'], 'include_dirs': inc}, core.EventLog(0))
         if scen.get('bad_cli'):
